@@ -1,6 +1,20 @@
 #!/bin/sh
-# every stored seed must still apply to /repo's HEAD (git apply --check); lists those that do not
+# every stored seed must still apply to /repo's HEAD (git apply --check); lists those that do not.
+# with the argument "build": also apply each one in the scratch worktree /tmp/wt-port and build it (about 10 min) — a patch
+# can apply textually and no longer compile, or land in a twin function (only tools/seedrecheck.sh / seedall.sh prove a port)
 cd /repo || exit 9
 bad=0
 for d in /verif/seeded/*/; do git apply --check $d/patch.diff 2>/dev/null || { echo "NOAPPLY $(basename $d)"; bad=1; }; done
 [ $bad = 0 ] && echo "all $(ls -d /verif/seeded/*/ | wc -l) stored seeds apply to $(git rev-parse --short HEAD)"
+[ "$1" = build ] || exit 0
+wt=${WT:-/tmp/wt-port}
+export GOFLAGS=-mod=mod GOPROXY=off
+[ -d $wt ] || git -C /repo worktree add --detach $wt HEAD >/dev/null 2>&1
+cd $wt || exit 9
+git checkout -q -- .; git checkout -q --detach $(git -C /repo rev-parse HEAD) || exit 9
+for d in /verif/seeded/*/; do
+  git apply $d/patch.diff 2>/dev/null || continue
+  go build ./... >/dev/null 2>&1 || echo "NOBUILD $(basename $d)"
+  git checkout -q -- .
+done
+echo "(build sweep done)"
